@@ -3,13 +3,14 @@ C08 — text through the whole box-generation pipeline (`element_to_box` → `cr
 Property theorems only; lemmas in `WpModel/Lemmas/{Pipeline,TableText,BoxGenTidy}.lean`.
 
 `Tidy b`: text lives in text boxes and text boxes are leaves.  `vis t`: the characters of `t` that
-`is_whitespace` (regex `\S`) does not call white space; `PT a b`: `vis a` is a permutation of `vis b`
+`is_whitespace` does not call white space (all but CSS white space: `visible_is_non_css_white`); `PT a b`: `vis a` is a permutation of `vis b`
 (tables move captions, header and footer groups).  `ColQuiet b`: columns and column groups hold no
 visible text (they are not rendered; `table_boxes_children` empties them).
 -/
 import WpModel.Lemmas.BoxGenTidy
 import WpModel.Lemmas.Fuel
 import WpModel.Lemmas.TableFuel
+import WpModel.Lemmas.Wrappers
 
 namespace Wp.C08
 open Wp Wp.Bx
@@ -166,5 +167,81 @@ example : (match tbc 8 (.mk .BlockBox {} {} {} [] [] []) [.mk .TableCellBox {} {
     (match tbc 19 (.mk .BlockBox {} {} {} [] [] []) [.mk .TableCellBox {} {} {} [] [] []] with
       | .ok r => r.kids.length | .error _ => 0) = 1 := by
   constructor <;> decide +kernel
+
+/-! ## Repaired findings, now theorems
+
+`inline-table-item-loses-wrapper` (97f25f2), `unicode-space-between-table-parts-dropped` (f280b41),
+`marker-display-none-crash` (848642f): the witness inputs are regression cases in `Witness/C08.lean`;
+here is what holds for every input since the repairs. -/
+
+/-- CSS white space: the characters the `white-space` property acts on (css-text-3 §4.1; CSS 2.1 §16.6.1
+lists space, tab, LF, CR; FF is white space of the syntax, CSS 2.1 §4.1.1). -/
+def cssWhite (c : Nat) : Bool := c == 32 || c == 9 || c == 10 || c == 13 || c == 12
+
+/-- The character class of `is_whitespace` — the complete graph of the real function, regenerated on
+every run — is exactly CSS white space, for every code point: no-break space, U+2003, U+2028, U+3000
+are text.  (Before f280b41 the regex was `\S` and this failed at 160, 8195, 8232, 12288.) -/
+theorem is_whitespace_is_css_white_space (c : Nat) : Gen.reSpaceCp c = cssWhite c := by
+  unfold Gen.reSpaceCp cssWhite
+  split <;> simp_all
+
+/-- The pattern the real function searches with: a character that is *not* CSS white space. -/
+theorem is_whitespace_pattern : Gen.isWhitespaceRe = "[^ \\t\\n\\r\\f]" := by decide
+
+/-- `is_whitespace(box)`: a text box all of whose characters are CSS white space. -/
+theorem is_whitespace_iff (b : KBox) : isWhitespace b = (b.isA .TextBox && b.text.all cssWhite) := by
+  unfold isWhitespace allReSpace
+  have : Gen.reSpaceCp = cssWhite := funext is_whitespace_is_css_white_space
+  rw [this]
+
+/-- Hence the "visible characters" of `table_fixup_text`, `create_anonymous_boxes_text` and
+`build_formatting_structure_text` are all characters but CSS white space: the anonymous-table rules
+delete nothing else (rules 1.3 / 1.4 now keep NBSP-like text and wrap it in an anonymous cell). -/
+theorem visible_is_non_css_white (t : Text) : vis t = t.filter (fun c => !cssWhite c) := by
+  unfold vis
+  have : Gen.reSpaceCp = cssWhite := funext is_whitespace_is_css_white_space
+  rw [this]
+
+/-- `flex_boxes` / `grid_boxes` keep every table box inside a table wrapper (`Wrapped`: outside running
+elements a table box is a child of a box with `is_table_wrapper`): the anonymous block that replaces an
+inline-block item takes over the flag, so the wrapper of an `inline-table` item stays one. -/
+theorem flex_grid_keeps_wrappers (grid : Bool) (b : KBox) (h : Wrapped b) : Wrapped (fgb grid b) :=
+  fgb_wrapped grid b h
+
+/-- The same through both passes, as `create_anonymous_boxes` runs them. -/
+theorem flex_then_grid_keeps_wrappers (b : KBox) (h : Wrapped b) : Wrapped (fgb true (fgb false b)) :=
+  fgb_wrapped true _ (fgb_wrapped false b h)
+
+/-- `::marker { display: none }` (after blockification nothing else computes to `none`): no box, no
+failure, whatever the content, the list-style type and the position; the quote depth is unchanged. -/
+theorem marker_display_none (m : MarkerSpec) (attrs : El) (outside : Bool) (depth : Nat)
+    (h : blockify m.st.display m.st.float m.st.position false = ["none"]) :
+    markerToBox m attrs outside depth = .ok ([], depth) := by
+  unfold markerToBox
+  simp [h]
+
+/-- `display: none` stays `none` under any `float` / `position`. -/
+theorem blockify_none (f p : String) (root : Bool) : blockify ["none"] f p root = ["none"] := by
+  unfold blockify
+  split
+  · rfl
+  · rfl
+
+/-! Non-vacuity: the table pass hands `div(flex)[ wrapper[inline-table] ]` over `Wrapped`; the flex pass
+keeps it so, with the wrapper flag on the anonymous block (cf. `Witness.C08.inline_table_item_keeps_wrapper`). -/
+private def flexWithInlineTable : KBox :=
+  .mk .FlexBox {} {} {} [] [.mk .InlineBlockBox { anon := true } {} { wrapper := true } []
+    [.mk .InlineTableBox {} {} {} [] [] []] []] []
+
+example : Wrapped flexWithInlineTable := by
+  simp [flexWithInlineTable, Wrapped, WrappedL, NoTableKid]
+  decide
+
+example : (fgb false flexWithInlineTable).kids.map (fun (w : KBox) => (w.kind, w.inst.wrapper)) =
+    [(.BlockBox, true)] := by decide +kernel
+
+example : isWhitespace (tx [32, 10, 9]) = true ∧ isWhitespace (tx [160]) = false ∧
+    isWhitespace (tx [8195]) = false ∧ isWhitespace (tx [12288]) = false := by decide
+
 
 end Wp.C08
